@@ -8,11 +8,13 @@ package v1alpha1
 //@     p == JobSucceeded || p == JobFailed || p == JobKilled || p == JobAdmissionError || p == JobFinishedUnknown
 
 //@ func JobPhase.IsTerminal
+//@   params p
 //@   ensures [C05,C06,C11] result == p.IsTerminal()
 
 //@ pure ConcurrencySpec.GetMaxConcurrency(c ConcurrencySpec) int64 = c.MaxConcurrency != nil ? *c.MaxConcurrency : 1
 
 //@ func ConcurrencySpec.GetMaxConcurrency
+//@   params c
 //@   ensures [C05,C06] result == c.GetMaxConcurrency()
 
 // Generated deep copies (zz_generated.deepcopy.go): ASSUMED contract. The copy is a fresh object that is
@@ -40,11 +42,13 @@ package v1alpha1
 
 //@ pure Job.GetMaxAttempts(j *Job) int64 = (j.Spec.Template != nil && j.Spec.Template.MaxAttempts != nil) ? *j.Spec.Template.MaxAttempts : 1
 //@ func Job.GetMaxAttempts
+//@   params j
 //@   requires j != nil
 //@   ensures [C08,C10] result == j.GetMaxAttempts()
 
 //@ pure retryDelaySeconds(j *Job) Int = (j.Spec.Template != nil && j.Spec.Template.RetryDelaySeconds != nil) ? *j.Spec.Template.RetryDelaySeconds : 0
 //@ func Job.GetRetryDelay
+//@   params j
 //@   tags C08
 //@   safety overflow, nil
 //@   requires j != nil
@@ -106,6 +110,7 @@ package v1alpha1
 //@ pure boolStr(c *BoolOptionConfig, value bool) string = c.Format == BoolOptionFormatCustom ? (value ? c.TrueVal : c.FalseVal) : boolFmt(c.Format, value)
 //@ pure boolStrOK(c *BoolOptionConfig) bool = c.Format == BoolOptionFormatCustom || boolFmtOK(c.Format)
 //@ func BoolOptionConfig.FormatValue
+//@   params c, value
 //@   tags C18
 //@   requires c != nil
 //@   ensures [C18] (result1 == nil) == boolStrOK(c)
@@ -114,12 +119,14 @@ package v1alpha1
 // a concurrency policy is valid iff it is one of the listed policies (the package-level list ConcurrencyPoliciesAll)
 //@ pure ConcurrencyPolicy.IsValid(p ConcurrencyPolicy) bool = exists k int :: 0 <= k && k < len(ConcurrencyPoliciesAll) && ConcurrencyPoliciesAll[k] == p
 //@ func ConcurrencyPolicy.IsValid
+//@   params p
 //@   loop 1 invariant -1 <= rangeindex && rangeindex < len(ConcurrencyPoliciesAll)
 //@   loop 1 invariant forall k int :: 0 <= k && k <= rangeindex ==> ConcurrencyPoliciesAll[k] != p
 //@   ensures [C17] result == p.IsValid()
 
 // only used to pick the event type; no claim beyond termination-free looping over the package-level list
 //@ func JobResult.IsFailed
+//@   params r
 //@   loop 1 invariant -1 <= rangeindex
 
 // ScheduleSpec.DeepCopy (generated): a fresh copy
